@@ -171,30 +171,77 @@ def ser_result(fn):
 
 # --------------------------------------------------------------------------- WF oracle
 
+def _ob_key(x):
+    """An object as plain data, independent of the library's own `==` on objects/types."""
+    if hasattr(x, "name"):
+        return (x.name, getattr(x, "z", 0))
+    return x
+
+
+def ty_key(t):
+    return [_ob_key(x) for x in t.objects] if hasattr(t, "objects") else [_ob_key(x) for x in t]
+
+
 def wf_failure(d):
-    """C01's predicate on a real diagram: None if well-typed, else a description."""
+    """C01's predicate on a real diagram: None if well-typed, else a description.
+    Types are compared as lists of (name, winding number), never with the library's `==`."""
     try:
-        scan = d.dom
+        scan = ty_key(d.dom)
         layers = list(d.layers.boxes)
         if not (len(d.boxes) == len(d.offsets) == len(layers)):
             return "lengths of boxes/offsets/layers differ"
-        if d.layers.dom != d.dom or d.layers.cod != d.cod:
+        if ty_key(d.layers.dom) != scan or ty_key(d.layers.cod) != ty_key(d.cod):
             return "layers.dom/cod differ from dom/cod"
         for k, (box, off, layer) in enumerate(zip(d.boxes, d.offsets, layers)):
             left, lbox, right = layer
-            if not isinstance(off, int) or not 0 <= off <= len(scan) - len(box.dom):
+            bdom, bcod = ty_key(box.dom), ty_key(box.cod)
+            if not isinstance(off, int) or not 0 <= off <= len(scan) - len(bdom):
                 return "offset %r of box %d out of range" % (off, k)
-            if scan[off:off + len(box.dom)] != box.dom:
+            if scan[off:off + len(bdom)] != bdom:
                 return "box %d does not find its domain at its offset" % k
-            if not (lbox == box and len(left) == off and left == scan[:off]
-                    and right == scan[off + len(box.dom):]):
+            if not (lbox == box and ty_key(lbox.dom) == bdom and ty_key(lbox.cod) == bcod
+                    and ty_key(left) == scan[:off] and ty_key(right) == scan[off + len(bdom):]):
                 return "layer %d disagrees with boxes/offsets" % k
-            scan = scan[:off] @ box.cod @ scan[off + len(box.dom):]
-        if scan != d.cod:
+            scan = scan[:off] + bcod + scan[off + len(bdom):]
+        if scan != ty_key(d.cod):
             return "scan does not reach the codomain"
         return None
     except Exception as exc:
         return "exception while checking: %r" % (exc,)
+
+
+class Aging:
+    """History part of C01: a diagram handed out earlier must stay the value it was.  `watch`
+    records a diagram with its canonical form at that moment; `recheck` re-reads every watched
+    diagram later (after more library calls) and reports those that changed or became ill-typed."""
+
+    def __init__(self, limit=4000):
+        self.items, self.limit = [], limit
+
+    def watch(self, what, d):
+        if hasattr(d, "layers") and hasattr(d, "offsets") and len(self.items) < self.limit:
+            try:
+                self.items.append((what, d, ser_diagram(d)))
+            except Exception:
+                pass
+        return d
+
+    def recheck(self):
+        out = []
+        for what, d, then in self.items:
+            try:
+                now = ser_diagram(d)
+            except Exception as exc:
+                now = "unreadable: %r" % (exc,)
+            if now != then:
+                out.append((what, "changed after it was handed out: was %s now %s"
+                            % (then[:160], now[:160])))
+                continue
+            why = wf_failure(d)
+            if why:
+                out.append((what, "ill-typed when re-read later: " + why))
+        self.items = []
+        return out
 
 
 # --------------------------------------------------------------------------- Lean side
